@@ -447,6 +447,8 @@ RULES['C13'] = 'same request repeated in fresh processes (new map-iteration seed
 
 RULES['C10'] = 'seeded values of every subject type (valid UTF-8, quiet NaNs) materialised as generated struct and as dynamicpb (for fresh types built on the schema as given to the generator): Equal (self, same value, single-field-perturbed variants in both argument orders), Clone (equal, same Go type, independent after mutating the clone), Merge (vs reference, no aliasing of src), CheckInitialized incl. variants with an unset required field inside embedded proto2 messages, protojson (3 option sets) and prototext marshal output byte-compared with the reference and parsed back into both, Reset; non-trivial = message with >=1 populated field; distinct by type+value'
 
+RULES['C11'] = 'per subject type several shared messages (built by struct construction, decoder, fast reflection Set, Clone; mostly-unset variants included); 16 goroutines released by a barrier each run 16 read-only operations (Size, Marshal both modes, Has/Get of every field incl. unset ones, Range, WhichOneof, Equal, Clone-from, Merge-from, protojson with and without EmitUnpopulated, prototext, getters, first use of the table-driven reflection, CheckInitialized, plain struct reads) in a seeded permutation under the Go race detector; the first use of every type is concurrent; results compared with a sequential reader afterwards; distinct by type+round+message'
+
 ASSUME = [
     'google.golang.org/protobuf v1.34.0 dynamicpb + proto (reflection codec) is the reference; it and the harness spec codec must agree before a case is decided',
     'the plain-Go-reflection struct reader (struct tags -> field numbers) reads generated structs correctly',
@@ -669,6 +671,63 @@ def plugin_coverage(w, reqdir):
         return pct, sorted(set(unc))
     except Exception as e:  # coverage is evidence only
         return {'error': str(e)}, []
+
+
+def parse_race_logs(pattern):
+    """Returns list of (signature, text, touches_subject) for each DATA RACE block."""
+    blocks = []
+    for fn in glob.glob(pattern):
+        txt = open(fn, errors='replace').read()
+        for b in txt.split('=================='):
+            if 'WARNING: DATA RACE' not in b:
+                continue
+            frames = re.findall(r'^  (\S+)\(.*\)\s*\n\s+(\S+):(\d+)', b, re.M)
+            subject = [f for f in frames if re.search(r'cosmos-proto/(testpb|internal/testprotos|zzgen|runtime|anyutil|support)\b', f[0]) or re.search(r'/(testpb|test3|zzgen/\w+|runtime)/[^/]+\.go$', f[1])]
+            # signature: the two access stacks' top subject (or top) frames, line numbers stripped
+            tops = []
+            for part in re.split(r'\n(?=Previous |Goroutine )', b):
+                fr = re.findall(r'^  (\S+)\(', part, re.M)
+                if fr and ('by goroutine' in part.split('\n')[0] or 'by main goroutine' in part.split('\n')[0] or part.lstrip().startswith('WARNING')):
+                    sub = [x for x in fr if re.search(r'cosmos-proto/(testpb|internal/testprotos|zzgen|runtime)', x)]
+                    tops.append((sub or fr)[0])
+            sig = ' <-> '.join(sorted(set(tops[:2]))) or 'unknown'
+            blocks.append((sig, b.strip()[:3000], bool(subject)))
+    return blocks
+
+
+def check_conc(prop, tier, seed, repo, keep):
+    """C11: -race build, readers released by a barrier; race reports + result comparison."""
+    t0 = time.time()
+    with Work(prop, repo, tier, seed, keep) as w:
+        bins = w.prepare_harness(fresh=True, variants=('race',))
+        logbase = w.p('zzout', 'race')
+        reps = []
+        repeats = 1 if tier == 'quick' else 3
+        for k in range(repeats):
+            reps += w.run_engine(bins['race'], 'conc', shards=4, timeout=3000,
+                                 env={'GOMAXPROCS': '8', 'GORACE': 'halt_on_error=0 log_path=%s history_size=2' % logbase})
+        merged = merge_reports(reps, prop)
+        blocks = parse_race_logs(logbase + '.*')
+        sigs = {}
+        harness_only = 0
+        for sig, txt, subj in blocks:
+            if not subj:
+                harness_only += 1
+                continue
+            if sig not in sigs:
+                sigs[sig] = txt
+        for sig, txt in list(sigs.items())[:20]:
+            merged['violations'].append(dict(prop='C11', key='conc/data-race', type=sig, detail='the race detector reports a data race between concurrent readers of one shared message:\n' + txt, replay=dict(engine='conc', signature=sig, seed=seed)))
+            merged['n_violations'] += 1
+        extra = gen_summary(w)
+        extra.update(race_reports=len(blocks), race_report_signatures=sorted(sigs), race_reports_without_subject_frames=harness_only, repeats=repeats,
+                     sanitizer='Go race detector (-race, implies checkptr), GORACE halt_on_error=0')
+        if harness_only and not sigs:
+            print('BROKEN: %d race reports without any frame of the code under test (harness race?)' % harness_only)
+            for sig, txt, subj in blocks[:2]:
+                print(txt[:1500])
+            return 2
+        return finish(prop, tier, seed, t0, merged, RULES[prop], ASSUME + ['the race detector only sees the interleavings and code paths the workload drives; 16 goroutines per shared message, every op in a per-goroutine seeded permutation'], 200, 100, extra=extra)
 
 
 def check_gen_total(prop, tier, seed, repo, keep):
@@ -938,7 +997,7 @@ CHECKS = {
     'C01': check_engine, 'C02': check_engine, 'C04': check_engine, 'C05': check_engine,
     'C03': check_engine, 'C14': check_engine,
     'C06': check_total, 'C07': check_engine,
-    'C08': check_engine, 'C09': check_engine, 'C10': check_engine, 'C12': check_gen_total, 'C13': check_gen_determinism, 'C15': check_engine, 'C16': check_engine, 'C17': check_engine, 'C18': check_isolated_engine,
+    'C08': check_engine, 'C09': check_engine, 'C10': check_engine, 'C11': check_conc, 'C12': check_gen_total, 'C13': check_gen_determinism, 'C15': check_engine, 'C16': check_engine, 'C17': check_engine, 'C18': check_isolated_engine,
 }
 
 
